@@ -248,27 +248,39 @@ theorem pregrow_flex_item (hF : FlexTy ms k mik e n) (g : Nat) {eo : Option Expr
   have hz := hasExpr_zeroOf e
   have tests : ∀ s, _ := fun s => struct_tests (eo := eo) hk (.arr (padI (elemsOf ck) i (zeroOf e))) (i :: s)
     (flex_tests ck hck i (zeroOf e) hz s).1 (flex_tests ck hck i (zeroOf e) hz s).2.1 (flex_tests ck hck i (zeroOf e) hz s).2.2
+  have nob : ∀ (tok : ITok) (r : List ITok), tok ≠ .lbrace →
+      initItem g (.struct ms sz true) true (.struct eo cs) [[k, i]] (tok :: r) fl =
+        initItem g (.struct ms sz true) true (.struct eo (cs.set k (.arr (padI (elemsOf ck) i (zeroOf e))))) [[k, i]] (tok :: r) fl := by
+    intro tok r hb
+    rw [initItem_tok _ _ _ _ _ _ _ _ hb, initItem_tok _ _ _ _ _ _ _ _ hb]
+    cases hd : descend (.struct ms sz true) true tok ([k, i].length + (Ty.struct ms sz true).nodes + 2) [k, i] with
+    | error err => rfl
+    | ok q =>
+      obtain ⟨s, rfl⟩ := descend_prefix _ _ _ _ _ _ hd
+      simp only [ok_bind, List.cons_append, List.nil_append]
+      have hfl : tokFlags (.struct ms sz true) (.struct eo cs) tok (k :: i :: s) =
+          tokFlags (.struct ms sz true) (.struct eo (cs.set k (.arr (padI (elemsOf ck) i (zeroOf e))))) tok (k :: i :: s) := by
+        simp only [tokFlags]
+        rw [← (tests s).1, ← (tests s).2.1, ← (tests s).2.2]
+      rw [hfl, modifyAt_flex_pad hF _ hk hck i s]
   cases toks with
   | nil => rfl
   | cons tok r =>
     by_cases hb : tok = .lbrace
     · subst hb
-      rw [initItem_brace _ _ _ _ _ _ _ (hF.sub_elem i) (hF.ng_elem i []), initItem_brace _ _ _ _ _ _ _ (hF.sub_elem i) (hF.ng_elem i [])]
+      cases hbl : bracedLit e r with
+      | some tr =>
+        obtain ⟨tok1, r1⟩ := tr
+        rw [initItem_bracedLit _ _ _ _ _ _ _ _ (hF.sub_elem i) (hF.ng_elem i []) hbl,
+          initItem_bracedLit _ _ _ _ _ _ _ _ (hF.sub_elem i) (hF.ng_elem i []) hbl]
+        exact nob tok1 r1 (bracedLit_stops hbl).2
+      | none =>
+      rw [initItem_brace _ _ _ _ _ _ _ (hF.sub_elem i) (hF.ng_elem i []) hbl, initItem_brace _ _ _ _ _ _ _ (hF.sub_elem i) (hF.ng_elem i []) hbl]
       rw [← (tests []).1, ← (tests []).2.2]
       congr 1
       funext sub
       rw [modifyAt_flex_pad hF _ hk hck i []]
-    · rw [initItem_tok _ _ _ _ _ _ _ _ hb, initItem_tok _ _ _ _ _ _ _ _ hb]
-      cases hd : descend (.struct ms sz true) true tok ([k, i].length + (Ty.struct ms sz true).nodes + 2) [k, i] with
-      | error err => rfl
-      | ok q =>
-        obtain ⟨s, rfl⟩ := descend_prefix _ _ _ _ _ _ hd
-        simp only [ok_bind, List.cons_append, List.nil_append]
-        have hfl : tokFlags (.struct ms sz true) (.struct eo cs) tok (k :: i :: s) =
-            tokFlags (.struct ms sz true) (.struct eo (cs.set k (.arr (padI (elemsOf ck) i (zeroOf e))))) tok (k :: i :: s) := by
-          simp only [tokFlags]
-          rw [← (tests s).1, ← (tests s).2.1, ← (tests s).2.2]
-        rw [hfl, modifyAt_flex_pad hF _ hk hck i s]
+    · exact nob tok r hb
 
 /-! ### elided braces: parser loop, counting loop and the specification's list in lockstep -/
 
@@ -415,11 +427,17 @@ theorem init2_array_unfold (f : Nat) (e : Ty) (n : Nat) (toks : List ITok) (c : 
     initializer2 (f+1) (.array e n) toks c =
       (match toks with
         | .str _ bytes esz :: r => if e.isInteger then stringInitializer e bytes esz r c else arrayInit2 f e toks c 0
-        | .lbrace :: _ => arrayInit1 f e toks c
+        | .lbrace :: r => (match bracedStr e r with
+          | some (_, bytes, esz, rest) => stringInitializer e bytes esz rest c
+          | none => arrayInit1 f e toks c)
         | _ => arrayInit2 f e toks c 0) := by
   cases toks with
   | nil => rw [initializer2] <;> intros <;> simp_all
-  | cons tok r => cases tok <;> rw [initializer2] <;> intros <;> simp_all
+  | cons tok r =>
+    cases tok <;> rw [initializer2] <;> intros <;> try simp_all
+    cases hbs : bracedStr e r with
+    | none => rfl
+    | some x => rfl
 
 theorem init2_array_len (f : Nat) (e : Ty) (n m : Nat) (toks : List ITok) (c : Init) :
     initializer2 f (.array e n) toks c = initializer2 f (.array e m) toks c := by
@@ -485,6 +503,17 @@ theorem flex_init2_shape (hoe : subOk e = true) {f : Nat} {toks : List ITok} {c'
       simp only [newInit] at hloop
       obtain ⟨xs, h1, _, h3⟩ := arr2loop_shape hoe f1 toks _ 0 c' toks' (shapedAll_replicate_zero e hoe len) hloop
       exact ⟨xs, h1, h3⟩
+  have strc : ∀ (bytes : List Nat) (esz : Nat) (r : List ITok), e.isInteger = true →
+      stringInitializer e bytes esz r .flex = .ok (c', toks') → ∃ xs, c' = .arr xs ∧ shapedAll e xs = true := by
+    intro bytes esz r hint h
+    have hp' : stringInitializer e bytes esz r (newInit (.array e (bytes.length / esz)) false) = .ok (c', toks') := by
+      unfold stringInitializer at h ⊢
+      simpa [newInit] using h
+    have hz : shaped (.array e (bytes.length / esz)) (newInit (.array e (bytes.length / esz)) false) = true :=
+      shaped_newInit _ (by simpa [subOk] using hoe)
+    obtain ⟨_, _, _, h4⟩ := stringInitializer_spec hz (hasExpr_newInit _ false) hint hp'
+    obtain ⟨xs, rfl, _, hx⟩ := arr_of_shaped h4
+    exact ⟨xs, rfl, hx⟩
   cases f with
   | zero => cases h
   | succ f =>
@@ -493,16 +522,13 @@ theorem flex_init2_shape (hoe : subOk e = true) {f : Nat} {toks : List ITok} {c'
     · rename_i id bytes esz r
       split at h
       · rename_i hint
-        have hp' : stringInitializer e bytes esz r (newInit (.array e (bytes.length / esz)) false) = .ok (c', toks') := by
-          unfold stringInitializer at h ⊢
-          simpa [newInit] using h
-        have hz : shaped (.array e (bytes.length / esz)) (newInit (.array e (bytes.length / esz)) false) = true :=
-          shaped_newInit _ (by simpa [subOk] using hoe)
-        obtain ⟨_, _, _, h4⟩ := stringInitializer_spec hz (hasExpr_newInit _ false) hint hp'
-        obtain ⟨xs, rfl, _, hx⟩ := arr_of_shaped h4
-        exact ⟨xs, rfl, hx⟩
+        exact strc bytes esz r hint h
       · exact arr2 f h
     · rename_i r
+      split at h
+      · rename_i id bytes esz rest hbs
+        obtain ⟨_, _, _, hi, _⟩ := bracedStr_some hbs
+        exact strc bytes esz rest (isIntNotBool_isInteger hi) h
       cases f with
       | zero => cases h
       | succ f1 =>
@@ -539,14 +565,15 @@ theorem flex_untouched {eo : Option Expr} {cs : List Init} (hk : cs[k]? = some .
   · rw [exprAbove_cons [] hk1, exprAbove]; simp
 
 /-- `{ … }` for the flexible member: the list of an array of unknown bound -/
-theorem initItem_brace_flex (hF : FlexTy ms k mik e n) (g : Nat) (obj : Init) (inner : List ITok) (fl : Flags) :
+theorem initItem_brace_flex (hF : FlexTy ms k mik e n) (g : Nat) (obj : Init) (inner : List ITok) (fl : Flags)
+    (hbl : bracedLit (.inc e) inner = none) :
     initItem g (.struct ms sz true) true obj [[k]] (.lbrace :: inner) fl =
       (initList g (.inc e) false (.arr []) (some [0]) inner true Flags.none >>= fun sub =>
         modifyAt (.struct ms sz true) true (fun _ _ => pure (unflex sub.obj)) (.struct ms sz true) [] [k] obj >>= fun obj' =>
           initList g (.struct ms sz true) true obj' (next (.struct ms sz true) true [k]) sub.rest false
             ((fl.join ⟨touched obj [k], exprAbove obj [k], false, false⟩).join sub.fl)) := by
   unfold initItem initItemWith
-  simp only [hF.sub_mem, hF.grow, ↓reduceIte, pure_bind']
+  simp only [hF.sub_mem, hF.grow, ↓reduceIte, pure_bind', hbl]
   have h1 : braceStart (.inc e) = .arr [] := rfl
   have h2 : firstCursor (.inc e) = some [0] := rfl
   rw [h1, h2]
@@ -556,6 +583,15 @@ theorem initItem_brace_flex (hF : FlexTy ms k mik e n) (g : Nat) (obj : Init) (i
     simp only [ok_bind, List.any_cons, List.any_nil, Bool.or_false, List.length_singleton, Nat.lt_irrefl, decide_false,
       List.foldlM_cons, List.foldlM_nil, defaultMember]
     cases modifyAt (.struct ms sz true) true (fun _ _ => pure (unflex sub.obj)) (.struct ms sz true) [] [k] obj <;> rfl
+
+/-- p14/p15 for the flexible member: `{ "…" }` is the literal alone -/
+theorem initItem_bracedLit_flex (hF : FlexTy ms k mik e n) (g : Nat) (obj : Init) (inner : List ITok) (fl : Flags)
+    {tok : ITok} {r : List ITok} (hbl : bracedLit (.inc e) inner = some (tok, r)) :
+    initItem g (.struct ms sz true) true obj [[k]] (.lbrace :: inner) fl =
+      initItem g (.struct ms sz true) true obj [[k]] (tok :: r) fl := by
+  obtain ⟨id, bytes, esz, rfl⟩ := bracedLit_str hbl
+  unfold initItem initItemWith
+  simp only [hF.sub_mem, hF.grow, ↓reduceIte, pure_bind', hbl]
 
 theorem flags_untouched {eo : Option Expr} {cs : List Init} (hk : cs[k]? = some .flex) (he : eo = none) (fl : Flags) (b : Bool)
     (hb : b = false) :
@@ -679,13 +715,12 @@ theorem flex_init2 (hF : FlexTy ms k mik e n) {cs : List Init} (hcs : shapedFlex
   cases f with
   | zero => cases h
   | succ f =>
-  rw [init2_array_unfold] at h
-  split at h
-  · rename_i id bytes esz r
-    split at h
-    · -- a string literal for an array of character type
-      rename_i hint
-      have hp' : stringInitializer e bytes esz r (newInit (.array e (bytes.length / esz)) false) = .ok (c', toks') := by
+  have strc : ∀ (id : Nat) (bytes : List Nat) (esz : Nat) (r : List ITok), e.isInteger = true →
+      stringInitializer e bytes esz r .flex = .ok (c', toks') →
+      initItem g (.struct ms sz true) true (.struct none cs) [[k]] (.str id bytes esz :: r) fl = .ok res →
+      ∃ g', initList g' (.struct ms sz true) true (.struct none (cs.set k c')) none toks' false fl = .ok res := by
+    intro id bytes esz r hint h hres
+    · have hp' : stringInitializer e bytes esz r (newInit (.array e (bytes.length / esz)) false) = .ok (c', toks') := by
         unfold stringInitializer at h ⊢
         simpa [newInit] using h
       have hz : shaped (.array e (bytes.length / esz)) (newInit (.array e (bytes.length / esz)) false) = true :=
@@ -705,6 +740,13 @@ theorem flex_init2 (hF : FlexTy ms k mik e n) {cs : List Init} (hcs : shapedFlex
       have : fl.join ⟨false || false, hasAggExpr (.struct none cs), false, false⟩ = fl := Flags.join_false fl
       rw [this] at hres
       exact ⟨g, hres⟩
+  rw [init2_array_unfold] at h
+  split at h
+  · rename_i id bytes esz r
+    split at h
+    · -- a string literal for an array of character type
+      rename_i hint
+      exact strc id bytes esz r hint h hres
     · -- a string literal for an array of another type: an expression for its first scalar
       rename_i hint
       refine flex_elided hF hcs hk h (fun tok r' heq => ?_) g fl res hres hcl
@@ -712,6 +754,15 @@ theorem flex_init2 (hF : FlexTy ms k mik e n) {cs : List Init} (hcs : shapedFlex
       exact ⟨(by intro hh; cases hh), (by simp [stopsAt, strFits, hint])⟩
   · -- `{ … }`
     rename_i inner
+    split at h
+    · -- p14/p15: a string literal in braces: the literal alone
+      rename_i id bytes esz rest hbs
+      obtain ⟨_, _, _, hi, _⟩ := bracedStr_some hbs
+      have hbl := bracedLit_of_bracedStr (t := .inc e) rfl hbs
+      rw [initItem_bracedLit_flex hF _ _ _ _ hbl] at hres
+      exact strc id bytes esz rest (isIntNotBool_isInteger hi) h hres
+    rename_i hbs
+    have hbl := bracedLit_none_of_bracedStr (t := .inc e) rfl hbs
     cases f with
     | zero => cases h
     | succ f1 =>
@@ -727,7 +778,7 @@ theorem flex_init2 (hF : FlexTy ms k mik e n) {cs : List Init} (hcs : shapedFlex
     obtain ⟨N, hN, hlen⟩ := bind_eq_ok hlen
     cases hlen
     have hN0 : 0 ≤ N := countLoop_ge e _ _ _ _ _ _ _ hN
-    rw [initItem_brace_flex hF] at hres
+    rw [initItem_brace_flex hF _ _ _ _ hbl] at hres
     obtain ⟨sub, hsub, hres⟩ := bind_eq_ok hres
     obtain ⟨obj', hmod, hfin⟩ := bind_eq_ok hres
     have hfl := initList_clean _ _ _ _ _ _ _ _ _ hfin hcl
@@ -1231,23 +1282,31 @@ theorem initList_reinit : ∀ (g : Nat) (ty : Ty) (top : Bool) (obj : Init) (cur
       simp only at h
       rw [← hr0]
       generalize fl.join (reinitFl ty top obj (isDesg toks1) ps) = fl' at h ⊢
+      have tokc : ∀ (ps : List (List Nat)) (tok : ITok) (r0 : List ITok),
+          initTokWith (initList g) ty top obj ps tok r0 fl' = .ok r → r.fl.reinit = fl'.reinit := by
+        intro ps tok r0 h
+        unfold initTokWith at h
+        obtain ⟨_, _, h⟩ := bind_eq_ok h
+        obtain ⟨_, _, h⟩ := bind_eq_ok h
+        have h2 := initList_reinit g _ _ _ _ _ _ _ _ hty h
+        rw [h2]
+        simp only [Flags.join, Bool.or_false]
       unfold initItem initItemWith at h
       split at h
       · obtain ⟨_, _, h⟩ := bind_eq_ok h
         exact initList_reinit g _ _ _ _ _ _ _ _ hty h
       · split at h
         · obtain ⟨t0, _, h⟩ := bind_eq_ok h
-          obtain ⟨sub, hsub, h⟩ := bind_eq_ok h
-          obtain ⟨_, _, h⟩ := bind_eq_ok h
-          have h1 := initList_reinit g _ _ _ _ _ _ _ _ (Or.inl rfl) hsub
-          have h2 := initList_reinit g _ _ _ _ _ _ _ _ hty h
-          rw [h2]
-          simp only [Flags.join, h1, Flags.none, Bool.or_false]
-        · obtain ⟨_, _, h⟩ := bind_eq_ok h
-          obtain ⟨_, _, h⟩ := bind_eq_ok h
-          have h2 := initList_reinit g _ _ _ _ _ _ _ _ hty h
-          rw [h2]
-          simp only [Flags.join, Bool.or_false]
+          try simp only at h
+          split at h
+          · exact tokc _ _ _ h
+          · obtain ⟨sub, hsub, h⟩ := bind_eq_ok h
+            obtain ⟨_, _, h⟩ := bind_eq_ok h
+            have h1 := initList_reinit g _ _ _ _ _ _ _ _ (Or.inl rfl) hsub
+            have h2 := initList_reinit g _ _ _ _ _ _ _ _ hty h
+            rw [h2]
+            simp only [Flags.join, h1, Flags.none, Bool.or_false]
+        · exact tokc _ _ _ h
         · cases h
 
 /-- for a declared type without flexible array member the fourth region is empty: `clean` is what it was before the region
@@ -1256,9 +1315,11 @@ theorem initFull_reinit_noflex {ty : Ty} {toks : List ITok} {r : Result} (hnf : 
     (hs : initFull ty toks = .ok r) : r.fl.reinit = false := by
   unfold initFull at hs
   split at hs
-  · obtain ⟨res, hres, hs⟩ := bind_eq_ok hs
-    cases hs
-    exact initList_reinit _ _ _ _ _ _ _ _ _ (Or.inr hnf) hres
+  · split at hs
+    · obtain ⟨_, _, hs⟩ := bind_eq_ok hs; cases hs; rfl
+    · obtain ⟨res, hres, hs⟩ := bind_eq_ok hs
+      cases hs
+      exact initList_reinit _ _ _ _ _ _ _ _ _ (Or.inr hnf) hres
   · split at hs
     all_goals first
       | (obtain ⟨_, _, hs⟩ := bind_eq_ok hs; cases hs; rfl)
